@@ -32,15 +32,15 @@ Print Assumptions C10_segments.
    display log, record file as configured) under every schedule and all channel capacities:
    every execution is finite and when nothing can move any more every writer has written
    exactly the frames (the record file holds the same bytes as the output). *)
-Theorem C10_every_schedule : forall t0 segs tail (k : nat) (live : nat -> bool) cap0 cap1 caps,
+Theorem C10_every_schedule : forall t0 segs tail (k : nat) (live sync : nat -> bool) cap0 cap1 caps,
   wf_segsb segs = true -> tail_ok tail ->
   (1 <= cap0)%nat -> (1 <= cap1)%nat -> length caps = k -> Forall (fun c => (1 <= c)%nat) caps ->
   exists n, forall m c,
-    steps _ (nstep _ _ _ (Pipe.prog N msg (list N) (fun acc b => (acc ++ [b], [])) (frame_flush t0) k live)
+    steps _ (nstep _ _ _ (Pipe.prog N msg (list N) (fun acc b => (acc ++ [b], [])) (frame_flush t0) k live sync)
                    Pipe.sender Pipe.receiver (SkDone _ _ _)) m
           (Pipe.init N msg (list N) k cap0 cap1 caps (flatten segs ++ tail) []) c ->
     (m <= n)%nat /\
-    (final_config _ _ _ (Pipe.prog N msg (list N) (fun acc b => (acc ++ [b], [])) (frame_flush t0) k live)
+    (final_config _ _ _ (Pipe.prog N msg (list N) (fun acc b => (acc ++ [b], [])) (frame_flush t0) k live sync)
                   Pipe.sender Pipe.receiver (SkDone _ _ _) c ->
      forall i, (i < k)%nat -> live i = true -> filter_output (sink_out N msg (list N) c i) = frames_of segs).
 Proof. exact filter_every_schedule. Qed.
